@@ -25,6 +25,11 @@ class OnceTimedOperation(AbstractDenseTimeOnlineOperation):
         # nothing has been received before this chunk
         first_chunk = self.residual_start == -float("inf")
 
+        # the sample on the seam: the chunk may start with the sample that closed the previous one (every upstream
+        # operation emits it twice); it was taken in then, like the binary operations drop it when they glue chunks
+        if sample and not first_chunk and sample[0][0] == self.residual_start:
+            sample = sample[1:]
+
         if sample:
             # update when the residuals start in this iteration
             self.residual_start = sample[-1][0]
